@@ -330,6 +330,11 @@ orc_line_parse_tokens (OrcLine *line)
     if (!orc_line_has_data (line) || orc_line_is_comment (line)) {
       break;
     }
+    if (orc_line_is_separator (line)) {
+      /* a separator surrounded by blanks ("d1 , s1") is not a token */
+      line->p++;
+      continue;
+    }
     if (line->n_tokens == ORC_LINE_MAX_TOKENS) {
       /* no directive or opcode takes this many tokens */
       line->too_many_tokens = TRUE;
